@@ -62,6 +62,9 @@ def noise_line(rng):
         # unfragmented, but carrying a sequence id (some transmitters send one)
         p_, f_ = gen.valid_message_payload(rng)
         return ais.sentence(p_, fill=f_, nf=1, fn=rng.choice([1, 1, 1, 2]), mid=rng.choice([0, 1, 2, 3, 5, 7, 9]))
+    if r < 0.38:
+        # fragment number 0 (with any count and id): rejected by the sequencing, whatever is open
+        return ais.sentence(gen.random_alphabet(rng, 5), nf=rng.choice([1, 2, 3, 9]), fn=0, mid=rng.choice([None, 0, 1, 2, 3, 5]), fill=0)
     if r < 0.42:
         # a fragment of any position, well formed, with a wrong checksum
         n = rng.choice([2, 3, 4, 9])
@@ -284,6 +287,10 @@ class C06:
                 kw["fn_txt"] = sp(k)
             if which == "mid" and mid is not None:
                 kw["mid_txt"] = sp(mid)
+        if rng.random() < 0.25:
+            # the group is defined by count, number and id: talker and formatter (known or not) play no part
+            kw.update(talker=rng.choice([b"AI", b"AB", b"BS", b"XX", b"ai"]), report=rng.choice([b"VDM", b"VDO", b"VDX", b"ABK", b"XYZ"]),
+                      delim=rng.choice([b"!", b"$"]))
         return ais.sentence(payload, nf=n, fn=k, mid=mid, fill=0, **kw)
 
     def cases(self, tier, rng):
@@ -925,6 +932,16 @@ class C20:
                 lines.append(rand_bytes(rng, rng.choice([1, 4, 30]), exclude=b"\n"))
             elif r < 0.8:
                 lines.append(rand_valid_sentence(rng, wild=False) + b"\r")
+            elif r < 0.815:
+                # checksum-valid sentences with bytes >= 0x80 (or other non-alphabet bytes) inside payload, channel or talker
+                pl = bytearray(gen.random_alphabet(rng, rng.choice([1, 6, 28])))
+                pl[rng.randrange(len(pl))] = rng.choice([0x80, 0xC3, 0xA9, 0xFF, 0x7F, 0x20, 0x58])
+                kw_ = rng.choice([dict(), dict(channel=b"\xc3\xa9"), dict(talker=b"\xff\xfe")])
+                if rng.random() < 0.5:
+                    lines.append(ais.sentence(bytes(pl), fill=0, **kw_))
+                else:
+                    lines.append(ais.sentence(bytes(pl[:len(pl) // 2 + 1]), nf=2, fn=1, mid=3, fill=0, **kw_))
+                    lines.append(ais.sentence(gen.random_alphabet(rng, 4), nf=2, fn=2, mid=3, fill=0))
             elif r < 0.83:
                 lines.append(b"\xff\xfe garbage \x80")
             elif r < 0.86:
